@@ -36,8 +36,17 @@ def fs_model(I):
         if isinstance(d, str) and isinstance(name, str):
             return d.rstrip("/") + "/" + name
         ctx.assumed_ext.add("os.path.join(dir, name) names one file per (dir, name); str(period) is injective on periods (C05)")
-        tok = Opaque(S.PJOIN(S.dir_term(d), S.name_term(name)), "path", {"dir": d, "name": name})
-        tok.attrs["binop"] = lambda ctx2, op, x, y: x if (y == ".npy") else B.NOT_IMPLEMENTED
+        core = name.attrs.get("core", name) if isinstance(name, Opaque) else name
+        ext0 = name.attrs.get("ext", "") if isinstance(name, Opaque) else ""
+        tok = Opaque(S.PJOIN(S.dir_term(d), S.name_term(core)), "path", {"dir": d, "name": core, "ext": ext0})
+
+        def binop(ctx2, op, x, y):
+            if isinstance(y, str) and y.startswith("."):
+                r = Opaque(x.e, "path", dict(x.attrs))
+                r.attrs["ext"] = x.attrs.get("ext", "") + y
+                return r
+            return B.NOT_IMPLEMENTED
+        tok.attrs["binop"] = binop
         return tok
 
     def mkdir(ctx, d):
@@ -49,7 +58,7 @@ def fs_model(I):
         names = []
         for p, v in f["writes"]:
             if isinstance(p, Opaque) and p.attrs.get("dir") == d:
-                names.append(p.attrs["name"])
+                names.append(name_with_ext(I, p.attrs["name"], p.attrs.get("ext", "")))
             elif isinstance(p, str) and p.rsplit("/", 1)[0] == d:
                 names.append(p.rsplit("/", 1)[1])
         for x in f["dirs"]:
@@ -59,6 +68,25 @@ def fs_model(I):
     I.ext["os.path"] = {"join": Builtin("os.path.join", join), "isdir": Builtin("isdir", lambda ctx, d: d in fs(ctx)["dirs"]),
                         "abspath": Builtin("abspath", lambda ctx, d: d), "exists": Builtin("exists", None)}
     I.ext["os"].update({"mkdir": Builtin("os.mkdir", mkdir), "listdir": Builtin("os.listdir", listdir)})
+
+
+def name_with_ext(I, core, ext):
+    """a directory entry: the file-name token followed by its extension"""
+    if not ext:
+        return core
+
+    def ga(ctx, name):
+        if name == "endswith":
+            return Builtin("endswith", lambda ctx2, suf: ext.endswith(suf) if isinstance(suf, str) else False)
+        if name == "rsplit":
+            def rsplit(ctx2, sep=None, maxsplit=-1):
+                if sep == "." and maxsplit == 1:
+                    head = ext[:-len("." + ext.rsplit(".", 1)[1])]
+                    return ListVal([name_with_ext(I, core, head), ext.rsplit(".", 1)[1]])
+                raise Unsupported("rsplit on a file name")
+            return Builtin("rsplit", rsplit)
+        return None
+    return Opaque(core.e, "filename+ext", {"core": core, "ext": ext, "cls": I.builtins["str"], "getattr": ga})
 
 
 def install(I):
@@ -111,6 +139,9 @@ class PeriodOfToken(Contract):
 
     def apply(self, I, ctx, f, args, kwargs):
         v = args[0] if args else kwargs.get("value")
+        if isinstance(v, Opaque) and v.attrs.get("ext"):
+            # a name still carrying an extension is not a printed period
+            raise ExcVal(I.resolve_qualified("openfisca_core.periods._errors.PeriodError"))
         if isinstance(v, Opaque) and v.attrs.get("period") is not None:
             ctx.assumed_ext.add("periods.period(str(p)) == p for every stored period p (size one or eternity): the C05 round trip")
             ctx.ghost.setdefault("log", []).append({"callee": "periods.period", "args": {"value": v}, "kind": "return", "value": v.attrs["period"]})
